@@ -203,6 +203,49 @@ pub fn replay_trunc(args: &Args) {
                 }
             }
         }
+        // the same profile with every ZERO weight replaced by 2^-70: a positive probability so small that it is absorbed
+        // by rounding (the others are bitwise the same, the survivors still sum to one).  Any threshold >= 1e-3 must
+        // remove such an action: the expectation is the one of the profile with exact zeros
+        let has_zero = w.iter().any(|side| side.iter().any(|ws| ws.iter().any(|x| *x == 0) && ws.iter().any(|x| *x > 0)));
+        if has_zero && h.is_finite() && h >= 1e-3 {
+            let tiny = 2f64.powi(-70);
+            let mut named: [Vec<(String, Vec<(String, f64)>)>; 2] = named_from(&w, [0, 0]);
+            for side in named.iter_mut() {
+                for (_, acts) in side.iter_mut() {
+                    for (_, x) in acts.iter_mut() {
+                        if *x == 0.0 {
+                            *x = tiny;
+                        }
+                    }
+                }
+            }
+            let tree2 = strat_game([&nacts[0], &nacts[1]], [0, 0]);
+            let res2 = util::catch(move || {
+                let game = tree::build(&tree2).expect("carrier game");
+                let mut strat = game.from_named(named).expect("grid profile with tiny weights");
+                strat.truncate(h);
+                strat.verif_dense()
+            });
+            match res2 {
+                Err(msg) => bad.push(json!({"what": "panic (tiny weights)", "observed": msg})),
+                Ok(dense) => {
+                    let mut ix = 0;
+                    for pl in 0..2 {
+                        for (j, g) in split(&dense[pl], &w[pl]).iter().enumerate() {
+                            let e = &exp[ix];
+                            ix += 1;
+                            if e["fixed"].as_bool().unwrap() {
+                                let want: Vec<f64> = e["v"].as_array().unwrap().iter().map(util::rat).collect();
+                                if !g.iter().zip(want.iter()).all(|(a, b)| util::close(*a, *b, 1e-12) && ((*a == 0.0) == (*b == 0.0))) {
+                                    bad.push(json!({"what": "an action of vanishing probability (2^-70) at or below the threshold survives or the survivors differ",
+                                        "class": "tiny", "player": pl + 1, "infoset": j + 1, "observed": g, "specified": e["v"]}));
+                                }
+                            }
+                        }
+                    }
+                }
+            }
+        }
         let nontrivial = exp.iter().any(|e| e["fixed"].as_bool().unwrap());
         if bad.is_empty() {
             out.line(&json!({"id": n, "status": "ok", "nontrivial": nontrivial}));
